@@ -217,7 +217,9 @@ def check(ctx, case):
                 pref = want_ssc or want_sm
                 if t.norm(sd.simfile_path) != t.norm(pref):
                     ctx.violation("directory:simfile_path-not-ssc-first", {"dir": rel, "got": sd.simfile_path, "want": pref})
-                for opts in opts_list:
+                # the same object is opened under every option set, in both orders (a later call must not be
+                # answered from an earlier one made with other options)
+                for opts in (opts_list + opts_list[::-1]) if ign else (opts_list[::-1] + opts_list):
                     check_open(ctx, t, d, pref, lambda **o: sd.open(**o), opts, calls, f"SimfileDirectory.open", rel)
             # opendir
             for opts in opts_list:
